@@ -166,6 +166,7 @@ class World(object):
         self.skipped = 0
         self.budget_hit = False
         self.too_big = False
+        self.quiet = False
         self.ops_done = []
         JITTER.value = cfg.get("jitter", 0.25)
         REACTOR.reset(self)
@@ -178,6 +179,8 @@ class World(object):
 
     def ev(self, conn, k, **d):
         e = Ev(len(self.log), self.step, self.now(), conn.idx if conn is not None else None, k, self.ctx, d)
+        if self.quiet:
+            return e
         if len(self.log) > self.MAX_EVENTS:
             raise CaseTooBig()
         self.log.append(e)
@@ -203,6 +206,8 @@ class World(object):
 
     # ------------------------------------------------------------------ transport callbacks
     def _on_write(self, conn, data):
+        if self.quiet:
+            return
         if conn.lost:
             where = "after_lost"
         elif conn.closed == "abort":
@@ -455,7 +460,7 @@ class World(object):
             self.skipped += 1
             return
         rid = len(self.reqs)
-        body = ("#%d#" % rid) + "p" * SIZE_TABLE[size % len(SIZE_TABLE)]
+        body = ("#%06d#" % rid) + "p" * SIZE_TABLE[size % len(SIZE_TABLE)]
         payload = body if as_str else bytearray(body.encode("ascii"))
         t = TOPICS[topic % len(TOPICS)]
         args = dict(topic=t, qos=qos, retain=bool(retain), payload=body.encode("ascii"), as_str=bool(as_str))
@@ -478,7 +483,7 @@ class World(object):
         n = max(1, min(n, 5))
         if shape in (0, 1):
             n = 1
-        topics = [("s%d/%d%s" % (rid, j, "ñ" if (qosbits >> 7) & 1 else ""), (qosbits >> (2 * j)) % 3)
+        topics = [("s%06d/%d%s" % (rid, j, "ñ" if (qosbits >> 7) & 1 else ""), (qosbits >> (2 * j)) % 3)
                   for j in range(n)]
         args = dict(shape=shape, topics=topics)
         if shape == 0:
@@ -498,7 +503,7 @@ class World(object):
         n = max(1, min(n, 5))
         if shape == 0:
             n = 1
-        topics = ["u%d/%d%s" % (rid, j, "ñ" if variant & 1 else "") for j in range(n)]
+        topics = ["u%06d/%d%s" % (rid, j, "ñ" if variant & 1 else "") for j in range(n)]
         args = dict(shape=shape, topics=topics)
         if shape == 0:
             fn = lambda r: conn.proto.unsubscribe(topics[0])  # noqa: E731
@@ -595,9 +600,10 @@ class World(object):
                     self.set_phase(conn, "refused")
             return
         if kind == "PINGRESP":
+            out = bool(conn.b_ping)
             if conn.b_ping:
-                conn.b_ping -= 1
-            self.deliver(conn, R.ref_encode("PINGRESP", {}, ver), ("PINGRESP",), cuts)
+                conn.b_ping = 0          # one PINGRESP answers the (single) PINGREQ the client waits for
+            self.deliver(conn, R.ref_encode("PINGRESP", {}, ver), ("PINGRESP", out), cuts)
             return
         if kind in ("PUBACK", "PUBREC", "PUBCOMP", "UNSUBACK", "SUBACK"):
             if kind == "SUBACK":
@@ -641,7 +647,7 @@ class World(object):
             size = [0, 1, 100, 200, 20000, 100000, 3, 17][(x >> 4) & 7]
             pid = None
             self.in_seq += 1
-            payload = ("<%d>" % self.in_seq).encode() + b"q" * size
+            payload = ("<%06d>" % self.in_seq).encode() + b"q" * size
             if qos:
                 pid = 1 + (y % 3) if y < 250 else 65535
                 if qos == 2 and pid in self.in_q2[a]:
@@ -792,6 +798,70 @@ class World(object):
         if REACTOR.clock.rightNow < target:
             REACTOR.clock.rightNow = target
 
+    def op_setid(self, value):
+        """C17: place the factory's packet-id counter (guarded: skipped when the attribute is gone)"""
+        if isinstance(getattr(self.factory, "id", None), int):
+            self.factory.id = value
+            self.ev(None, "setid", value=value)
+        else:
+            self.ev(None, "setid_skipped")
+
+    def op_walk(self, a, n, qos=1):
+        """C17: n acknowledged QoS 1/2 publishes in a row (enough to wrap the 16-bit counter on its
+        own); logging is suspended, the walk records its own findings: every id handed out must be in
+        1..65535 and differ from the id of every request that is unfinished at that moment"""
+        conn = self.live(a)
+        if not self.can_rx(conn) or conn.phase != "connected" or not (self.cfg["profile"] & 2):
+            self.skipped += 1
+            return
+        ver = conn.version or R.V311
+        unfinished = {}
+        for r in self.reqs:
+            if r.ret == "deferred" and not r.fires and isinstance(r.msgid, int) and r.kind in ("publish", "subscribe", "unsubscribe"):
+                unfinished[r.msgid] = r.rid
+        bad = []
+        done = 0
+        wrapped = False
+        last = None
+        blocked = False
+        res = []
+        quiet_from = len(self.log)
+        self.quiet = True
+        try:
+            for i in range(n):
+                d = conn.proto.publish(topic="w", message=bytearray(b"walk"), qos=qos)
+                mid = getattr(d, "msgId", None)
+                res[:] = []
+                d.addCallbacks(lambda v: res.append(("ok", v)), lambda f: res.append(("err", f.value)))
+                if not (isinstance(mid, int) and 1 <= mid <= 65535):
+                    bad.append(("range", mid, None))
+                    break
+                if mid in unfinished:
+                    bad.append(("reused", mid, unfinished[mid]))
+                    break
+                if last is not None and mid < last:
+                    wrapped = True
+                last = mid
+                if res:
+                    bad.append(("failed", mid, repr(res[0][1])[:80]))
+                    break
+                if qos == 1:
+                    conn.proto.dataReceived(R.ref_encode("PUBACK", dict(id=mid), ver))
+                else:
+                    conn.proto.dataReceived(R.ref_encode("PUBREC", dict(id=mid), ver))
+                    conn.proto.dataReceived(R.ref_encode("PUBCOMP", dict(id=mid), ver))
+                if not res:
+                    blocked = True      # held back behind older requests: stop, the walk needs a free window
+                    unfinished[mid] = -1
+                    break
+                done += 1
+        finally:
+            self.quiet = False
+            for lst in (conn.b_q1, conn.b_q2, conn.b_rel):
+                del lst[:]
+        self.ev(conn, "walk", done=done, bad=bad, wrapped=wrapped, blocked=blocked,
+                unfinished=sorted(unfinished)[:8], n_unfinished=len(unfinished))
+
     def op_pingrun(self, a, periods, klass=0):
         """C15: run `periods` keepalive periods; klass 0: answer each PINGREQ at once, 1: answer just
         before its deadline, 2: answer every second one only, 3: answer twice"""
@@ -874,6 +944,7 @@ class World(object):
 
     def finish(self):
         """tear the world down so nothing outlives the case"""
+        self.timers_final = self.timers()
         for c in REACTOR.getDelayedCalls():
             try:
                 c.cancel()
